@@ -146,6 +146,7 @@ def run_seq(case):
     T = L.model_empty()
     ok = []
     prev = L.libobs(target)
+    unsettled = False
     for s, d in _sections_diff(T, prev):
         _bad(vs, "fresh-library-not-empty", "a fresh IsotxsLibrary observes %s" % (d,), {"part": "merge", "pool": pool, "seq": []})
     for k, name in enumerate(seq):
@@ -167,6 +168,7 @@ def run_seq(case):
             if reason:
                 _bad(vs, "merge-conflict-silently-combined:" + reason.split(":")[0], "%s: merging %s must be refused (%s) but succeeded" % (hist, name, reason), sub)
                 resync = True
+                unsettled = True  # what the target now holds is not a union of members any more
             else:
                 T = L.model_merge(T, M)
                 ok.append(name)
@@ -174,7 +176,7 @@ def run_seq(case):
                     key = CONTENT_KEY[s]
                     if s == "neutronVelocity" and d[2] is None:
                         key = "merge-neutronVelocity-lost"
-                    _bad(vs, key, "%s: after merging %s, %s is %s in the target, the union of the sources has %s" % (hist, name, d[0], L.short(d[2]), L.short(d[1])), sub)
+                    _bad(vs, key, "%s: after merging %s, %s is %s in the target, the union of the sources has %s" % (hist, name, d[0], L.show(d[2]), L.show(d[1])), sub)
                     resync = True
                 _fixture_combined(vs, ok, name, now, sub, hist)
         else:
@@ -191,17 +193,21 @@ def run_seq(case):
                 _bad(
                     vs,
                     DIRTY_KEY[s],
-                    "%s: merging %s was refused (%s; model: %s) but the target changed: %s was %s, is now %s" % (hist, name, type(exc).__name__, reason, d[0], L.short(d[1]), L.short(d[2])),
+                    "%s: merging %s was refused (%s; model: %s) but the target changed: %s was %s, is now %s" % (hist, name, type(exc).__name__, reason, d[0], L.show(d[1]), L.show(d[2])),
                     sub,
                 )
             if dirty:
                 # continue from a clean target holding what was merged successfully so far
-                target = _rebuild(ok)
+                try:
+                    target = _rebuild(ok)
+                except Exception:  # noqa: BLE001 - cannot happen unless merging itself is broken (reported above)
+                    steps.append([k + 1, out, sorted(ok), core.jhash(L.order_free(now)), reason, True])
+                    break
                 now = L.libobs(target)
         if resync:
             T = json.loads(json.dumps(now))  # schema of model state == schema of observation
             T.pop("inconsistent_index", None)
-        steps.append([k + 1, out, sorted(ok), core.jhash(L.order_free(now)), reason, bool(resync)])
+        steps.append([k + 1, out, sorted(ok), core.jhash(L.order_free(now)), reason, unsettled])
         prev = now
     return {"viols": vs, "steps": steps}
 
@@ -218,11 +224,11 @@ def _fixture_combined(vs, ok, name, now, sub, hist):
             for label in c["labels"]:
                 d = L.first_diff(c["nuc"][label][kind], now["nuc"][label][kind], "/nuc/%s/%s" % (label, kind))
                 if d:
-                    _bad(vs, "merge-fixture-combined-differs", "%s: %s differs from %s: shipped %s, merged %s" % (hist, d[0], L.COMBINED[kind], L.short(d[1]), L.short(d[2])), sub)
+                    _bad(vs, "merge-fixture-combined-differs", "%s: %s differs from %s: shipped %s, merged %s" % (hist, d[0], L.COMBINED[kind], L.show(d[1]), L.show(d[2])), sub)
                     break
             d = L.first_diff({k: v for k, v in c["meta"][kind].items()}, now["meta"][kind], "/meta/" + kind)
             if d:
-                _bad(vs, "merge-fixture-combined-differs", "%s: %s differs from %s: shipped %s, merged %s" % (hist, d[0], L.COMBINED[kind], L.short(d[1]), L.short(d[2])), sub)
+                _bad(vs, "merge-fixture-combined-differs", "%s: %s differs from %s: shipped %s, merged %s" % (hist, d[0], L.COMBINED[kind], L.show(d[1]), L.show(d[2])), sub)
 
 
 def eval_order(case):
@@ -250,6 +256,14 @@ def macro_lib(libname):
     for n in macro_order(libname):
         T = L.model_merge(T, src_obs(n))
     return _rebuild(macro_order(libname)), T
+
+
+def _macro_lib_or_viol(case, vs):
+    try:
+        return macro_lib(case["lib"])
+    except Exception as e:  # noqa: BLE001
+        _bad(vs, "macro-library-cannot-be-merged", "merging the conflict-free sequence %s raised %s: %s" % (macro_order(case["lib"]), type(e).__name__, L.short(str(e), 200)), case)
+        return None, None
 
 
 def make_block(comp, suffix):
@@ -513,7 +527,9 @@ def _want_gamma(T, suffix, comp):
 def eval_macro(case):
     _reset()
     vs, stats = [], {}
-    lib, T = macro_lib(case["lib"])
+    lib, T = _macro_lib_or_viol(case, vs)
+    if lib is None:
+        return {"viols": vs, "stats": stats, "n": 0}
     for comp in case["comps"]:
         comp = {k: v for k, v in comp.items() if v is not None}
         check_comp(lib, T, case["lib"], case["suffix"], comp, _want_gamma(T, case["suffix"], comp), vs, stats)
@@ -521,12 +537,22 @@ def eval_macro(case):
     after = L.libobs(lib)
     d = L.first_diff(T["nuc"], after["nuc"], "/nuc")
     if d:
-        _bad(vs, "macro-computation-mutates-library", "lib %s: after the computations %s is %s, source has %s" % (case["lib"], d[0], L.short(d[2]), L.short(d[1])), case)
+        _bad(vs, "macro-computation-mutates-library", "lib %s: after the computations %s is %s, source has %s" % (case["lib"], d[0], L.show(d[2]), L.show(d[1])), case)
     return {"viols": vs, "stats": stats, "n": len(case["comps"])}
+
+
+def _z(a, like):
+    """An all-zero vector over G groups stands for zeros of any (G, moments) shape."""
+    if a.ndim == 1 and like.ndim == 2 and a.shape[0] == like.shape[0] and not a.any():
+        return a[:, None]
+    return a
 
 
 def _lin_close(a, b, scale):
     import numpy as np
+
+    ref = max((a, b, np.asarray(scale)), key=lambda x: x.ndim)
+    a, b, scale = _z(a, ref), _z(b, ref), _z(np.asarray(scale), ref)
 
     return a.shape == b.shape and bool(np.all(np.abs(a - b) <= 8 * TOL * (scale + 1e-300)))
 
@@ -537,7 +563,9 @@ def eval_lin(case):
 
     _reset()
     vs = []
-    lib, T = macro_lib(case["lib"])
+    lib, T = _macro_lib_or_viol(case, vs)
+    if lib is None:
+        return {"viols": vs, "n": 0}
     suffix = case["suffix"]
     cache = {}
 
@@ -555,8 +583,9 @@ def eval_lin(case):
         for q in sorted(r3):
             if q.endswith(NONLINEAR) or any(x.get(q) is None or isinstance(x.get(q), tuple) for x in (r1, r2, r3)):
                 continue
-            want = al * r1[q] + be * r2[q]
-            if not _lin_close(r3[q], want, al * np.abs(r1[q]) + be * np.abs(r2[q])):
+            ref = max((r1[q], r2[q], r3[q]), key=lambda x: x.ndim)
+            want = al * _z(r1[q], ref) + be * _z(r2[q], ref)
+            if not _lin_close(r3[q], want, np.abs(want)):
                 sub = dict(case, combos=[[c1, c2, [al, be]]])
                 _bad(vs, "macro-not-linear", "lib %s suffix %s: %s(%g*%s + %g*%s) = %s != %s" % (case["lib"], suffix, q, al, c1, be, c2, L.short(r3[q].tolist()), L.short(want.tolist())), sub)
                 break
@@ -571,7 +600,7 @@ def eval_lin(case):
             if q.endswith(NONLINEAR) or any(x.get(q) is None or isinstance(x.get(q), tuple) for x in [whole] + parts):
                 continue
             want = sum(p[q] for p in parts)
-            if not _lin_close(whole[q], want, sum(np.abs(p[q]) for p in parts)):
+            if not _lin_close(whole[q], want, np.abs(want)):
                 sub = dict(case, combos=[], additive=[comp])
                 _bad(vs, "macro-not-additive-over-nuclides", "lib %s suffix %s: %s(%s) = %s != sum over single-nuclide compositions %s" % (case["lib"], suffix, q, comp, L.short(whole[q].tolist()), L.short(want.tolist())), sub)
                 break
@@ -585,7 +614,9 @@ def eval_tsm(case):
 
     _reset()
     vs = []
-    lib, T = macro_lib(case["lib"])
+    lib, T = _macro_lib_or_viol(case, vs)
+    if lib is None:
+        return {"viols": vs, "n": 0}
     n = 0
     for label in T["labels"]:
         for kind, attr in (("ISOTXS", "micros"), ("GAMISO", "gammaXS")):
@@ -656,6 +687,15 @@ def evaluate(case):
 
 
 def _dispatch(case):
+    import time
+
+    t0 = time.process_time()
+    r = _dispatch1(case)
+    r["cpu"] = time.process_time() - t0
+    return r
+
+
+def _dispatch1(case):
     part = case["part"]
     if part == "merge":
         return run_seq(case)
@@ -708,8 +748,23 @@ def macro_cases(ctx):
         out.append({"part": "macro", "lib": lib, "suffix": "AB", "comps": ab})
         lin = list(_grid(MACRO_NUCS, bd["lin_dens"]))
         for c1 in lin:
-            out.append({"part": "lin", "lib": lib, "suffix": "AA", "combos": [[c1, c2, co] for c2 in lin for co in LIN_COEFFS], "additive": [c1]})
+            coeffs = LIN_COEFFS if (lib != "fix" or not ctx.quick) else LIN_COEFFS[1:]  # 33-group fixture: one coefficient pair in quick
+            out.append({"part": "lin", "lib": lib, "suffix": "AA", "combos": [[c1, c2, co] for c2 in lin for co in coeffs], "additive": [c1]})
         out.append({"part": "tsm", "lib": lib})
+    return out
+
+
+def _spread(cases, heavy):
+    """Deterministic interleaving so that the expensive cases (33-group fixtures) do not end up in
+    the same chunk of the parallel map; never changes which cases run."""
+    hv, lt = [c for c in cases if heavy(c)], [c for c in cases if not heavy(c)]
+    if not hv or not lt:
+        return cases
+    out, step = [], max(1, len(lt) // len(hv))
+    for i, c in enumerate(hv):
+        out.extend(lt[i * step : (i + 1) * step])
+        out.append(c)
+    out.extend(lt[len(hv) * step :])
     return out
 
 
@@ -723,17 +778,16 @@ def run(ctx):
         ctx.notes.append("a generated member does not survive the real CCCC write/read bit-exactly (C09 territory); merge oracles are unaffected")
 
     # 1. merge histories
-    mcases = ctx.order(merge_cases(ctx))
+    mcases = ctx.order(_spread(merge_cases(ctx), lambda c: c["pool"] != "gen"))
     res = core.pmap(MOD, "_dispatch", mcases)
     transitions, states, groups, seen_v = set(), {core.jhash("empty")}, {}, set()
-    first_reach = {}
     for c, r in zip(mcases, res):
         for v in r["viols"]:
             k = (v["key"], json.dumps(v["case"], sort_keys=True))
             if k not in seen_v:
                 seen_v.add(k)
                 ctx.add_violations([v])
-        for k, out, okset, dig, reason, resync in r["steps"]:
+        for k, out, okset, dig, reason, unsettled in r["steps"]:
             pre = (c["pool"], tuple(c["seq"][:k]))
             if pre in transitions:
                 continue
@@ -743,11 +797,12 @@ def run(ctx):
                 ctx.count("merge_" + out)
                 ctx.count("refusal_reason_" + str(reason).split(":")[0])
             states.add(dig)
-            if not resync:
-                g = groups.setdefault((c["pool"] if c["pool"] != "cross" else "cross", tuple(okset)), {})
-                cand = list(pre[1])
-                if dig not in g or (len(cand), cand) < (len(g[dig]), g[dig]):
-                    g[dig] = cand
+            if unsettled:
+                continue  # after a silently accepted conflict the set of merged members is undefined
+            g = groups.setdefault((c["pool"], tuple(okset)), {})
+            cand = list(pre[1])
+            if dig not in g or (len(cand), cand) < (len(g[dig]), g[dig]):
+                g[dig] = cand
     multi = 0
     for (pool, okset), digs in sorted(groups.items()):
         if len(okset) >= 2:
@@ -758,10 +813,14 @@ def run(ctx):
             ctx.add_violations(eval_order_checked(case))
     ctx.count("merged_sets_reached", len(groups))
     ctx.count("merged_sets_with_2plus_members", multi)
+    cpu = {}
+    for c, r in zip(mcases, res):
+        cpu[c["pool"]] = cpu.get(c["pool"], 0.0) + r["cpu"]
+    ctx.log("merge cpu by pool: %s" % {k: round(v, 1) for k, v in cpu.items()})
     ctx.log("merge: %d sequences, %d distinct merge steps, %d distinct libraries" % (len(mcases), len(transitions), len(states)))
 
     # 2. macroscopic grid
-    qcases = ctx.order(macro_cases(ctx))
+    qcases = ctx.order(_spread(macro_cases(ctx), lambda c: c["lib"] == "fix"))
     qres = core.pmap(MOD, "_dispatch", qcases)
     ncomp = nlin = ntsm = nout = nmiss = 0
     for c, r in zip(qcases, qres):
@@ -778,12 +837,24 @@ def run(ctx):
             nlin += r["n"]
         else:
             ntsm += r["n"]
+    cpu = {}
+    for c, r in zip(qcases, qres):
+        cpu[c["part"] + ":" + c["lib"]] = cpu.get(c["part"] + ":" + c["lib"], 0.0) + r["cpu"]
+    ctx.log("macro cpu by part: %s" % {k: round(v, 1) for k, v in sorted(cpu.items())})
     ctx.count("macro_compositions", ncomp)
     ctx.count("macro_compositions_with_missing_nuclide", nmiss)
     ctx.count("macro_entry_point_outputs_compared", nout)
     ctx.count("macro_linearity_additivity_relations", nlin)
     ctx.count("total_scatter_collections", ntsm)
     ctx.log("macro: %d compositions, %d outputs, %d linearity/additivity relations" % (ncomp, nout, nlin))
+
+    # simplest counterexample of every class first, independent of the exploration order
+    def _simplest(v):
+        j = json.dumps(v["case"], sort_keys=True)
+        heavy = v["case"].get("pool") in ("fix", "cross") or v["case"].get("lib") == "fix"  # 33-group fixtures replay slower
+        return (heavy, len(j), j)
+
+    ctx.violations.sort(key=_simplest)
 
     longest = [c for c in mcases if c["pool"] == "gen"]
     ctx.samples = [mcases[0], longest[len(longest) // 2] if longest else mcases[-1], next(c for c in qcases if c["part"] == "macro")["comps"][:3]]
@@ -805,5 +876,5 @@ def run(ctx):
     ]
 
 
-def eval_order_checked(case):
+def eval_order_checked(case):  # run in the parent process
     return eval_order(case)
